@@ -48,7 +48,7 @@ def execute(spec, want=("C01",), keep_trace=False):
     try:
         sess = scen.Session(bdir(), seed=seed, relay=relay, tag="r%d" % seed, **spec.get("sess", {}))
         w = sess.w
-        if "C16" in want or "state" in want or "TSRV" in want:
+        if "C16" in want or "state" in want or "TSRV" in want or "C02" in want:
             w.dump_users = True
         if "TCLI" in want:
             w.dump_clients = True
@@ -395,8 +395,14 @@ def abs_c02(w, sess, frames, t0, hs_len, res):
     upcap = 1
     pend = None
     accepted = []
+    srvstate = None
+    myuid = users[0].get("u")
     for e in w.trace:
         ev = e["ev"]
+        if ev == "SrvState":
+            st = [x for x in e["users"] if x["u"] == myuid]
+            srvstate = st[0] if st else None
+            continue
         if ev == "Send" and e["inst"] == "C0":
             d = e["data"]
             if d[:3] == proto.RAW_HDR:
@@ -417,7 +423,11 @@ def abs_c02(w, sess, frames, t0, hs_len, res):
             if p is None:
                 continue
             if e["inst"] == "S":
-                accepted.append((e["t"], "C0", p, e["data"]))
+                # "accepts" = read from the tun device AND kept: the session had no packet in flight or room in its queue
+                # of four (with other live sessions around the server keeps reading its tun device while ours is full,
+                # and drops what does not fit)
+                if srvstate is None or srvstate["out"][2] == 0 or srvstate["outq"] < 4:
+                    accepted.append((e["t"], "C0", p, e["data"]))
             else:
                 pend = (e["t"], "S", p, e["data"])
         elif ev == "Select" and e["inst"] == "C0":
